@@ -7,7 +7,7 @@
      - negated aliases and negation markers *)
 From Coq Require Import List NArith Bool Arith Lia Permutation Sorted.
 Import ListNotations.
-From DDP Require Import Gen.Tokens Alias.OMap Alias.OMapProofs Alias.Trie Alias.TrieProofs Alias.TokKey Alias.Select.
+From DDP Require Import Gen.Tokens Gen.AliasArgs Alias.OMap Alias.OMapProofs Alias.Trie Alias.TrieProofs Alias.TokKey Alias.Select.
 Local Open Scope nat_scope.
 
 (* ------------------------------------------------------------------------------------------ *)
@@ -257,7 +257,7 @@ Lemma check_go_binds a toks : forall c e b b' e' name,
   | None => bind_get b name
   end.
 Proof.
-  induction toks as [|t r IH]; intros c e b b' e' name H; cbn in H |- *.
+  induction toks as [|t r IH]; intros c e b b' e' name H; cbn [Select.check_go place] in H |- *.
   - inversion H; subst. reflexivity.
   - destruct (N.eqb (tt t) tt_EOF); [inversion H; subst; reflexivity|].
     destruct (is_placeholder t).
@@ -298,7 +298,7 @@ Lemma bind_go_binds a toks : forall c b name,
   | None => bind_get b name
   end.
 Proof.
-  induction toks as [|t r IH]; intros c b name; cbn; [reflexivity|].
+  induction toks as [|t r IH]; intros c b name; cbn [bind_go place]; [reflexivity|].
   destruct (N.eqb (tt t) tt_EOF); [reflexivity|].
   destruct (is_placeholder t); [|apply IH].
   rewrite IH. destruct (place r (unit_extent s c) name); [reflexivity|].
@@ -358,7 +358,7 @@ Theorem check_go_param_order a a' toks : forall c e b,
   check_go a toks c e b = check_go a' toks c e b.
 Proof.
   intros c e b Hp Hnd. revert c e b.
-  induction toks as [|t r IH]; intros c e b; cbn; [reflexivity|].
+  induction toks as [|t r IH]; intros c e b; cbn [Select.check_go]; [reflexivity|].
   destruct (N.eqb (tt t) tt_EOF); [reflexivity|].
   destruct (is_placeholder t); [|apply IH].
   rewrite <- (find_param_perm _ _ (lit t) Hp Hnd).
@@ -372,9 +372,14 @@ Proof.
 Qed.
 
 (* the matcher and the checker walk the stream alike *)
+Lemma arg_lists_agree : arg_single_match = arg_single_check /\ arg_neg_match = arg_neg_check.
+Proof. split; reflexivity. Qed.
+
 Lemma unit_end_extent c e : unit_end s c = UnitOk e -> unit_extent s c = e.
 Proof.
-  unfold unit_end, unit_extent.
+  unfold unit_end, unit_extent, is_single_c, is_neg_operand_c.
+  rewrite <- (proj1 arg_lists_agree), <- (proj2 arg_lists_agree).
+  fold (is_single (peek_tt s c)). fold (is_neg_operand (peek_tt s (S c))).
   destruct (is_single (peek_tt s c)); [intros H; inversion H; reflexivity|].
   destruct (N.eqb (peek_tt s c) tt_NEGATE).
   - destruct (is_neg_operand (peek_tt s (S c))); intros H; inversion H; reflexivity.
